@@ -76,7 +76,7 @@ def judge(path: str, password, supplied_password: bool, workdir: str):
                 if i.uncompressed not in (0, None):
                     out.append(("size", f"{m['name']!r}: empty entry listed with size {i.uncompressed}"))
         for nm in set(names):
-            for variant in (nm, nm + "/"):
+            for variant in sorted({nm, nm.rstrip("/"), nm.rstrip("/") + "/"} - {""}):
                 try:
                     gi = z.getinfo(variant)
                     if gi.filename != nm:
@@ -111,6 +111,18 @@ def judge(path: str, password, supplied_password: bool, workdir: str):
                 out.append(("summary-size", f"archiveinfo().size={ai.size} file has {len(blob)} bytes"))
         except Exception as ex:
             out.append(("summary-exception", f"archiveinfo() raised {type(ex).__name__}: {ex} (members={len(model)}, folders={len(ref['folders'])})"))
+        # the same summary for an archive opened from a stream (docs/api.rst: filename and stat "become None")
+        try:
+            import io
+
+            with py7zr.SevenZipFile(io.BytesIO(blob), "r", password=password if supplied_password else None) as zs:
+                a2 = zs.archiveinfo()
+            if (a2.blocks, bool(a2.solid), sorted(a2.method_names), a2.uncompressed) != (len(ref["folders"]), any(fo["nsub"] > 1 for fo in ref["folders"]), sorted({DISPLAY.get(c, c) for fo in ref["folders"] for c in fo["coders"]}), sum(len(m["data"]) for m in model if m["kind"] == "file")):
+                out.append(("summary-stream", f"archiveinfo() of the archive opened from a stream: blocks={a2.blocks} solid={a2.solid} methods={a2.method_names} uncompressed={a2.uncompressed}"))
+            if a2.filename is not None or a2.stat is not None:
+                out.append(("summary-stream", f"archiveinfo() of a stream reports filename={a2.filename!r} stat={a2.stat!r}"))
+        except Exception as ex:
+            out.append(("summary-stream-exception", f"archiveinfo() on an archive opened from a stream raised {type(ex).__name__}: {ex}"))
         has_aes = any("AES" in fo["coders"] for fo in ref["folders"])
         try:
             np_ = z.needs_password()
@@ -177,6 +189,9 @@ def ref_layout_cases():
     out.append({"members": members, "layout": {"folders": [[1, 3, 4]], "chains": [Z], "header": "lzma2+aes"}, "password": PW, "label": "aes-header-only"})
     out.append({"members": [members[0], members[2]], "layout": {}, "password": None, "label": "no-streams"})
     out.append({"members": [], "layout": {}, "password": None, "label": "empty"})
+    # a directory stored with a trailing slash (writers that keep the caller's spelling): getinfo must find it either way
+    slashed = [dict(members[0], name="docs/")] + members[1:]
+    out.append({"members": slashed, "layout": dict(base), "password": None, "label": "dir-trailing-slash"})
     return out
 
 
